@@ -34,12 +34,14 @@ pub fn maps_tokens(l: &mut Line, w: &World) {
 
 pub fn gen_plan(rng: &mut Rng, focus: &str, tier: &str, case_idx: u64) -> Plan {
     let force_k1 = focus == "c05" && case_idx == 0;   // the recorded finding K1 is exercised on every run
-    let many = focus == "c06" && rng.chance(1, 2);
-    let nthreads = if force_k1 { 3 } else if many { rng.range(19, if tier == "thorough" { 63 } else { 26 }) } else { match rng.below(4) { 0 => 0, 1 => 1, _ => rng.range(2, 6) } } as usize;
+    // one fixed C06 shape per run: every chunk-boundary offset of the stack pointer among the threads that the size limit shortens
+    let boundary = focus == "c06" && case_idx == 1;
+    let many = boundary || (focus == "c06" && rng.chance(1, 2));
+    let nthreads = if force_k1 { 3 } else if boundary { 27 } else if many { rng.range(19, if tier == "thorough" { 63 } else { 26 }) } else { match rng.below(4) { 0 => 0, 1 => 1, _ => rng.range(2, 6) } } as usize;
     let offs = [0u32, 8, 2040, 2047, 2048, 2056, 4088, 4095, 0xea0, 0x10];
     let threads: Vec<ThreadSpec> = (0..nthreads).map(|i| ThreadSpec {
-        kind: if force_k1 && i == 1 { Kind::NullSp } else if focus == "c04" && rng.chance(1, 5) { Kind::Spin } else if rng.chance(1, 12) { Kind::NullSp } else { Kind::Block },
-        sp_off: if rng.chance(3, 4) { *rng.pick(&offs) } else { rng.below(4096) as u32 },
+        kind: if force_k1 && i == 1 { Kind::NullSp } else if boundary { Kind::Block } else if focus == "c04" && rng.chance(1, 5) { Kind::Spin } else if rng.chance(1, 12) { Kind::NullSp } else { Kind::Block },
+        sp_off: if boundary && i >= 19 { [0u32, 8, 2040, 2048, 2056, 4088, 4095, 2047][i - 19] } else if rng.chance(3, 4) { *rng.pick(&offs) } else { rng.below(4096) as u32 },
         pages: if rng.chance(1, 6) { rng.range(3, 33) as u32 } else { rng.range(2, 4) as u32 },
         name: Some(format!("t{i}").into_bytes()),
         // a stack pointer whose low 32 bits are all zero or all one (multiples of 4 GiB): still an ordinary thread
@@ -52,9 +54,9 @@ pub fn gen_plan(rng: &mut Rng, focus: &str, tier: &str, case_idx: u64) -> Plan {
         let off = if rng.chance(1, 3) { pages * 4096 - len } else { rng.below(pages * 4096 - len + 1) };
         lines.push(format!("appmem {idx} {off} {len}"));
     }
-    let blame_late = focus == "c06" && many && rng.chance(1, 2);
+    let blame_late = focus == "c06" && many && !boundary && rng.chance(1, 2);
     Plan { scen: Scenario { threads, lines }, blame_late, crash: if blame_late { 2 } else if force_k1 { 3 } else if focus == "c05" || focus == "c07" { rng.below(4) as u8 } else if rng.chance(1, 3) { rng.range(1, 2) as u8 } else { 0 },
-           limit: if blame_late { Some(1) } else if focus == "c06" { if rng.chance(2, 3) { Some(*rng.pick(&[1u64, 1000, 100_000, 200_000, 300_000, 1 << 30])) } else { None } } else if rng.chance(1, 6) { Some(1) } else { None },
+           limit: if blame_late || boundary { Some(1) } else if focus == "c06" { if rng.chance(2, 3) { Some(*rng.pick(&[1u64, 1000, 100_000, 200_000, 300_000, 1 << 30])) } else { None } } else if rng.chance(1, 6) { Some(1) } else { None },
            sanitize: rng.chance(1, if focus == "c12" { 1 } else { 5 }), user_maps: vec![],
            skip: if focus == "c20" { rng.range(1, 3) as u8 } else if rng.chance(1, 8) { 1 } else { 0 }, napp }
 }
@@ -76,6 +78,9 @@ pub fn configure(rng: &mut Rng, plan: &Plan, target: &Target) -> Configured {
         let bidx = target.tids.iter().position(|t| *t == blamed);
         let sp = match if plan.blame_late { 4 } else { rng.below(5) } { 0 => rng.next(), 1 => 0, 2 => u64::MAX - 7, _ => match bidx { Some(i) => target.fact_hex(&format!("t{i}.sp")), None => anon[1] + 0x800 } };
         let ip = match rng.below(8) { 0 => rng.next() >> 17, 1 => anon[0], 2 => anon[0] + 1, 3 => anon[0] + 3 * 4096 - 1, 4 => anon[0] + *rng.pick(&[127u64, 128, 129, 3 * 4096 - 128, 3 * 4096 - 129, 3 * 4096 - 127]), 5 => anon[2] + 0x10, 6 => anon[0] + 3 * 4096, _ => target.fact_hex("blk") };
+        // the context's own thread-id field is not what decides who is blamed (the id given to the writer is):
+        // unset, another live thread, or arbitrary in half of the cases
+        match rng.below(6) { 0 => cc.inner.tid = 0, 1 if nth > 0 => cc.inner.tid = target.tids[rng.below(nth as u64) as usize], 2 => cc.inner.tid = (rng.next() >> 40) as i32, _ => {} }
         cc.inner.context.uc_mcontext.gregs[libc::REG_RSP as usize] = sp as i64;
         cc.inner.context.uc_mcontext.gregs[libc::REG_RIP as usize] = ip as i64;
         let copy = CrashContext { inner: cc.inner.clone() };
